@@ -779,8 +779,15 @@ class Env:
         return False
 
 
+STRLIKE = []  # classes that stand for `str` values (SStr, TStr, symre.CStr register here)
+
+
+def is_symstr(x):
+    return isinstance(x, tuple(STRLIKE))
+
+
 def is_sym(x):
-    return isinstance(x, (SInt, SBool, SStr, TStr))
+    return isinstance(x, (SInt, SBool)) or isinstance(x, tuple(STRLIKE))
 
 
 class Interp:
@@ -890,6 +897,11 @@ class Interp:
             name = getattr(f, "__name__", "")
             if name == "join" and isinstance(self_obj, str):
                 return m_join(self, self_obj, list(args[0]))
+            if type(self_obj).__name__ == "Pattern" and any(is_symstr(a) for a in args):
+                hook = getattr(self, "pattern_hook", None)
+                if hook is None:
+                    raise NotEncodable(f"compiled pattern .{name} on a symbolic string")
+                return hook(self_obj, name, args, kwargs)
             if is_sym(self_obj) or (isinstance(self_obj, str) and name in STR_METHOD_MODELS and any(deep_sym(a) for a in args)):
                 mm = STR_METHOD_MODELS.get(name)
                 if mm is None:
@@ -1277,7 +1289,7 @@ class Interp:
         f = {ast.Add: o.add, ast.Sub: o.sub, ast.Mult: o.mul, ast.FloorDiv: o.floordiv, ast.Mod: o.mod, ast.BitAnd: o.and_, ast.BitOr: o.or_}.get(type(op))
         if f is None:
             raise NotEncodable(f"binop {type(op).__name__}")
-        if isinstance(a, str) and isinstance(b, (SStr, TStr)) and f is o.add:
+        if isinstance(a, str) and is_symstr(b) and f is o.add:
             return b.__radd__(a)
         return f(a, b)
 
@@ -1553,13 +1565,13 @@ def deep_sym(x):
 def m_len(interp, x):
     if isinstance(x, (SStr, TStr)):
         return x.length()
-    if isinstance(x, collections.UserString) and is_sym(x.data):
+    if isinstance(x, collections.UserString) and isinstance(x.data, (SStr, TStr)):
         return x.data.length()
     return len(x)
 
 
 def m_isinstance(interp, x, t):
-    if isinstance(x, (SStr, TStr)):
+    if is_symstr(x):
         ts = t if isinstance(t, tuple) else (t,)
         return any(issubclass(str, k) for k in ts)
     if isinstance(x, SInt):
@@ -1569,7 +1581,7 @@ def m_isinstance(interp, x, t):
 
 
 def m_str(interp, x=""):
-    if isinstance(x, (SStr, TStr)):
+    if is_symstr(x):
         return x
     if isinstance(x, collections.UserString):
         return x.data
@@ -1618,13 +1630,15 @@ def m_join(interp, sep, parts):
     out = ""
     first = True
     for p in parts:
-        p = m_str(interp, p) if not isinstance(p, (str, SStr, TStr)) else p
+        p = m_str(interp, p) if not (isinstance(p, str) or is_symstr(p)) else p
         if not first and sep != "":
             out = interp.binop(ast.Add(), out, sep)
         out = interp.binop(ast.Add(), out, p)
         first = False
     return out
 
+
+STRLIKE.extend([SStr, TStr])
 
 MODELS = {
     hash: lambda interp, x: interp.hash_of(x),
